@@ -267,6 +267,7 @@ struct Opts {
     all_bodies: bool,
     bodies: BTreeSet<String>,
     items: bool,
+    binders: bool,
 }
 
 fn attrs_j(attrs: &[syn::Attribute]) -> J {
@@ -317,6 +318,41 @@ fn fields_j(fields: &syn::Fields) -> J {
             })
             .collect(),
     )
+}
+
+/// Every lower-case identifier the generated code binds as a value (function and closure parameters, `let`,
+/// match-arm and struct patterns), keyed by the innermost enclosing function.
+struct BinderCollector {
+    cur: Vec<String>,
+    out: BTreeSet<(String, String)>,
+}
+
+impl<'ast> syn::visit::Visit<'ast> for BinderCollector {
+    fn visit_item_fn(&mut self, f: &'ast syn::ItemFn) {
+        self.cur.push(f.sig.ident.to_string());
+        syn::visit::visit_item_fn(self, f);
+        self.cur.pop();
+    }
+    fn visit_impl_item_fn(&mut self, f: &'ast syn::ImplItemFn) {
+        self.cur.push(f.sig.ident.to_string());
+        syn::visit::visit_impl_item_fn(self, f);
+        self.cur.pop();
+    }
+    fn visit_trait_item_fn(&mut self, f: &'ast syn::TraitItemFn) {
+        self.cur.push(f.sig.ident.to_string());
+        syn::visit::visit_trait_item_fn(self, f);
+        self.cur.pop();
+    }
+    fn visit_pat_ident(&mut self, p: &'ast syn::PatIdent) {
+        let n = p.ident.to_string();
+        if n.chars().next().map(|c| c.is_lowercase() || c == '_').unwrap_or(false) {
+            self.out.insert((self.cur.last().cloned().unwrap_or_default(), n));
+        }
+        syn::visit::visit_pat_ident(self, p);
+    }
+    fn visit_field_pat(&mut self, p: &'ast syn::FieldPat) {
+        syn::visit::visit_field_pat(self, p);
+    }
 }
 
 struct MatchCollector {
@@ -571,6 +607,7 @@ fn parse_opts(want: &str) -> Opts {
         all_bodies: false,
         bodies: BTreeSet::new(),
         items: false,
+        binders: false,
     };
     for w in want.split(',') {
         let w = w.trim();
@@ -580,6 +617,8 @@ fn parse_opts(want: &str) -> Opts {
             o.all_bodies = true;
         } else if w == "items" {
             o.items = true;
+        } else if w == "binders" {
+            o.binders = true;
         } else if let Some(rest) = w.strip_prefix("bodies=") {
             for b in rest.split('|') {
                 o.bodies.insert(b.to_string());
@@ -677,6 +716,13 @@ fn observe(id: &str, mac: &str, attr_src: &str, item_src: &str, want: &str) -> J
     if o.items {
         let items: Vec<J> = file.items.iter().skip(1).filter_map(|i| item_j(i, &o)).collect();
         rec.push(("items", J::Arr(items)));
+    }
+    if o.binders {
+        let mut bc = BinderCollector { cur: vec![], out: BTreeSet::new() };
+        for it in file.items.iter().skip(1) {
+            syn::visit::Visit::visit_item(&mut bc, it);
+        }
+        rec.push(("binders", J::Arr(bc.out.iter().map(|(f, n)| J::Arr(vec![J::Str(f.clone()), J::Str(n.clone())])).collect())));
     }
     J::Obj(rec)
 }
